@@ -278,6 +278,65 @@ def mapInvOk (fm : FeatureMap Float32) : Bool :=
      | none => true) &&
     (List.zip s (s.drop 1)).all (fun q => q.1.massLo ≤ q.2.massLo)
 
+/-! ### big worlds (derived from a seed identically in `harness/src/ops/c19.rs::big_world`) -/
+
+def bigSeqs : Array (List UInt8) :=
+  #["PEPTIDEK", "ACDEFGHIK", "LLMMNNPPQQR", "SSTTVVWWYK", "GGAAGGAAGGK", "CMCMCMK", "FFYYWWHHR", "DEDEDEDEKR"].map
+    (fun (x : String) => x.toUTF8.toList)
+
+/-- splitmix64 finaliser of (seed, i) -/
+def bigHash (seed i : UInt64) : UInt64 :=
+  let z := seed + (i + 1) * 0x9E3779B97F4A7C15
+  let z := (z ^^^ (z >>> 30)) * 0xBF58476D1CE4E5B9
+  let z := (z ^^^ (z >>> 27)) * 0x94D049BB133111EB
+  z ^^^ (z >>> 31)
+
+def bigSettings : Settings Float32 Float :=
+  { scoring := .hybrid, sum := true, spectralAngle := 0.5, ppm := 10, mobPct := 1, combine := true }
+
+/-- peptide `i` of the big world: sequence, PSM, its three scans -/
+def bigPeptide (seed i : Nat) : List UInt8 × Feat Float32 × List (Spectrum Float32) :=
+  let r := (bigHash seed.toUInt64 i.toUInt64).toNat
+  let cm : Float32 := Float32.ofNat (700000 + r % 3000000) / 1000
+  let rt : Float32 := Float32.ofNat (2 + 3 * i) / 100
+  let base : Float32 := Float32.ofNat (1000 + (r >>> 40) % 9000)
+  let seq := bigSeqs.getD ((r >>> 32) % 8) []
+  let d : Float32 := f32b 978433815   -- 0.0008
+  let feat : Feat Float32 := { peptide := i, label := 1, peptideQ := 0, alignedRt := rt, calcmass := cm, charge := 2,
+                               fileId := i % 2, ims := 1 }
+  let scans := [(rt + (-d), (0.5 : Float32)), (rt + 0, 1), (rt + d, 0.5)].map fun (t, wk) =>
+    ({ fileId := i % 2, scanStart := t,
+       peaks := [(0, (1 : Float32)), (1, 0.75), (2, 0.5)].map fun (iso, env) =>
+         { mass := (cm + Float32.ofNat iso * env32.neutron) / 2, intensity := base * wk * env, mobility := 1 } } : Spectrum Float32)
+  (seq, feat, scans)
+
+def identityAlign : Align Float32 := { maxRt := 1, slope := 1, intercept := 0 }
+
+/-- the one-peptide world of peptide `i` (peptide renumbered 0). The big world is RT-disjoint by construction (aligned RTs
+    0.03 apart, windows ±0.005, decoy windows 0.01 earlier), so no scan of one peptide lies in a window of another and every
+    grid is fed by its own peptide's scans only: the result of the big world is the union of the results of these. -/
+def bigMini (seed i : Nat) : World :=
+  let (seq, feat, scans) := bigPeptide seed i
+  { withMob := false, st := bigSettings, zLo := 2, zHi := 4, peptides := [seq], feats := [{ feat with peptide := 0 }],
+    aligns := [identityAlign, identityAlign], spectra := scans }
+
+/-- spec + agreement for one feature map reported by the implementation; `confOk` decides whether a peptide index is a
+    confident target, `nConf` is their number -/
+def mapVerdict (fm : FeatureMap Float32) (canonFm : List (List Nat)) (zLo zHi nConf : Nat) (confOk : Nat → Bool)
+    (irs : List (Range Float32)) (ims : List Float32) (ib : Nat) : Bool × String :=
+  let ifm : FeatureMap Float32 := { ranges := irs, minRts := ims.toArray, binSize := ib }
+  -- order among rt / mass_lo ties is not fixed by the code (unstable sorts): compare as multisets
+  let agree := (irs.map rangeToks).mergeSort lexLe == canonFm &&
+    ims.map Float32.toBits == fm.minRts.toList.map Float32.toBits && ib == fm.binSize
+  let spec :=
+    if irs.any (fun r => !confOk r.peptide) then "bad:unconfident_range"
+    -- the property text fixes THREE isotopologues (literal 3, not the regenerated constant)
+    else if irs.any (fun r => r.charge < zLo || r.charge > zHi || r.isotope ≥ 3) then "bad:charge_or_isotope"
+    else if irs.length != nConf * (zHi + 1 - zLo) * 3 * 2 then "bad:range_count"
+    else if !mapInvOk ifm then "bad:index_invariant"
+    else "ok"
+  (agree, spec)
+
 /-! ### ops -/
 
 def handle (op : String) (args impl : List String) : Option Reply :=
@@ -293,19 +352,9 @@ def handle (op : String) (args impl : List String) : Option Reply :=
     match run (do let rs ← list pRange; let ms ← list f32; let b ← nat; pure (rs, ms, b)) impl with
     | none => pure { model := model, agree := false, spec := "na" }
     | some (irs, ims, ib) =>
-      let ifm : FeatureMap Float32 := { ranges := irs, minRts := ims.toArray, binSize := ib }
-      -- order among rt / mass_lo ties is not fixed by the code (unstable sorts): compare as multisets
-      let agree := canon irs == canon fm.ranges && ims.map Float32.toBits == fm.minRts.toList.map Float32.toBits &&
-        ib == fm.binSize
       let conf := (fs.filter (confident env32))
       let nConf := (conf.map (·.peptide)).eraseDups.length
-      let spec :=
-        if irs.any (fun r => !(conf.any fun f => f.peptide == r.peptide)) then "bad:unconfident_range"
-        -- the property text fixes THREE isotopologues (literal 3, not the regenerated constant)
-        else if irs.any (fun r => r.charge < zLo || r.charge > zHi || r.isotope ≥ 3) then "bad:charge_or_isotope"
-        else if irs.length != nConf * (zHi + 1 - zLo) * 3 * 2 then "bad:range_count"
-        else if !mapInvOk ifm then "bad:index_invariant"
-        else "ok"
+      let (agree, spec) := mapVerdict fm (canon fm.ranges) zLo zHi nConf (fun p => conf.any fun f => f.peptide == p) irs ims ib
       pure { model := model, agree := agree, spec := spec }
   | "lfqgrid" => do
     let (refRt, refFile, files, d, scoring, sum, sa, adds) ← run (do
@@ -439,6 +488,68 @@ def handle (op : String) (args impl : List String) : Option Reply :=
             else "bad:columns_do_not_follow"
         pure { model := model, agree := agree, spec := spec }
     | _, _ => pure (exact "panic" (" ".intercalate impl) "na")
+  | "lfqbigmap" => do
+    let (seed, nPep, threads) ← run (do let a ← nat; let b ← nat; let c ← list nat; pure (a, b, c)) args
+    let fs := (List.range nPep).map fun i => (bigPeptide seed i).2.1
+    let fm := buildFeatureMap env32 bigSettings.ppm bigSettings.mobPct 2 4 fs
+    let canonFm := (fm.ranges.map rangeToks).mergeSort lexLe
+    let one := outList (fun r => " ".intercalate (rangeToks r |>.map toString)) fm.ranges ++ " " ++
+      outList outF32 fm.minRts.toList ++ " " ++ toString fm.binSize
+    let model := " ".intercalate (threads.map fun _ => one)
+    match run (listN (do let rs ← list pRange; let ms ← list f32; let b ← nat; pure (rs, ms, b)) threads.length) impl with
+    | none => pure { model := model, agree := false, spec := "na" }
+    | some maps =>
+      let vs := maps.map fun (irs, ims, ib) => mapVerdict fm canonFm 2 4 nPep (· < nPep) irs ims ib
+      let spec := match vs.find? (fun v => v.2 != "ok") with
+        | some v => v.2
+        | none => "ok"
+      pure { model := model, agree := vs.all (·.1), spec := spec }
+  | "lfqbig" => do
+    let (seed, nPep, threads) ← run (do let a ← nat; let b ← nat; let c ← list nat; pure (a, b, c)) args
+    -- expected rows, peptide by peptide (O(nPep)): the sequential model on the one-peptide world, and the keys that have
+    -- in-window signal by the naive scan of that world
+    let minis := (List.range nPep).map fun i =>
+      let w := bigMini seed i
+      let rows := ((runModel w 0).getD []).map fun r => { r with pep := i }
+      let sig := (signalKeys w).map fun k => ({ k with peptide := i } : Key)
+      (rows, sig)
+    let expected := (minis.flatMap (·.1)).mergeSort (fun a b => keyLt a b || !(keyLt b a))
+    let model := " ".intercalate (threads.map fun _ => outRows expected)
+    match run (listN pRows threads.length) impl with
+    | none => pure { model := model, agree := false, spec := "na" }
+    | some irs =>
+      let agree := irs.all (fun ir => rowsClose ir expected)
+      -- presence tables for the common key shape (combined charge, target); anything else goes through lists
+      let sigPlain := (minis.map fun m => m.2.any (fun k => k.charge == 0 && !k.decoy)).toArray
+      let sigOther := (minis.flatMap (·.2)).filter (fun k => k.charge != 0 || k.decoy)
+      let hasSignal (r : Row) : Bool :=
+        if r.charge == 0 && !r.decoy then sigPlain.getD r.pep false
+        else sigOther.contains { peptide := r.pep, charge := r.charge, decoy := r.decoy }
+      let wellFormed (rows : List Row) : Option String :=
+        first? (rows.map fun r =>
+          if r.areas.length != 2 then some "bad:area_count"
+          else if r.areas.any (fun a => !a.isFinite || a < 0) then some "bad:negative_or_nonfinite"
+          else if r.pep ≥ nPep then some "bad:unconfident_reported"
+          else if r.charge != 0 then some "bad:charge_not_combined"
+          else if !hasSignal r then some "bad:reported_without_signal"
+          else none)
+      -- every precursor whose clean envelope lies inside its own windows (and which the sequential definition quantifies)
+      -- must be reported, whatever the pool size and however large the map
+      let lost (rows : List Row) : Bool :=
+        let present := rows.foldl (fun (a : Array Bool) r =>
+          if r.charge == 0 && !r.decoy && r.pep < nPep then a.set! r.pep true else a) (Array.replicate nPep false)
+        expected.any fun r => r.charge == 0 && !r.decoy && hasSignal r && !present.getD r.pep false
+      let spec : String :=
+        match first? (irs.map wellFormed) with
+        | some s => s
+        | none =>
+          if irs.any lost then "bad:in_window_signal_lost"
+          else match irs with
+            | [] => "ok"
+            | r0 :: rest =>
+              if !(rest.all (fun r => sameKeys r0 r)) then "bad:thread_dependent_presence"
+              else if rest.all (fun r => rowsClose r0 r) then "ok" else "bad:thread_dependent"
+      pure { model := model, agree := agree, spec := spec }
   | _ => none
 
 end Sage.C19
